@@ -15,6 +15,107 @@ REQUIRED = ["safety_any_schedule", "unsolicited_responses_change_no_dag", "chunk
             "fact_handled_envelopes", "fact_liveness_constants", "fact_dispatch_and_wiring", "chunks_fit_message_limit", "fact_chunk_accounting", "fact_add_mutex_release", "add_mutex_released_on_every_exit", "deferred_once_releases_exactly_once", "hooks_alone_leave_mutex_locked", "fact_gossip_peer_table_keys", "disconnect_removes_queue", "reconnect_gets_fresh_queue", "connect_then_disconnect_leaves_no_entry"]
 
 
+IBLT_PKG = "network/dag/tree"
+IBLT_HARNESS = ["network/dag/tree/zz_verif_c07iblt_test.go"]
+HARNESSES = [(PKG, HARNESS, "c07"), (IBLT_PKG, IBLT_HARNESS, "c07iblt")]
+
+
+def is_iblt_replay(path):
+    try:
+        with open(path) as f:
+            head = f.read(400)
+        return '"op":"iblt' in head or '"op":"bidx"' in head
+    except OSError:
+        return False
+
+
+def run_iblt(ctx):
+    """the REAL tree.Iblt (Insert, Marshal/Unmarshal, Subtract, Decode, bucketIndices) vs NutsModel/C07/Iblt.lean + model-free oracles"""
+    binary = ctx.go_test_binary(IBLT_PKG, IBLT_HARNESS, "c07iblt")
+    if binary is None:
+        ctx.oblige("iblt-harness-builds", False, ctx.harness_error[-1500:])
+        return
+    env = {"VERIF_CORPUS": os.path.join(os.path.dirname(os.path.dirname(os.path.abspath(__file__))), "harness", "corpus", "C07")}
+    if ctx.replay:
+        env["VERIF_REPLAY"] = os.path.abspath(ctx.replay)
+    out = os.path.join(ctx.scratch, "out_iblt")
+    rc, log, out = ctx.run_harness(binary, "TestVerifC07Iblt", env, outdir=out, timeout=600)
+    if rc != 0:
+        ctx.oblige("iblt-harness-runs", False, log[-1500:])
+        return
+    ops_p, impl_p, model_p = (os.path.join(out, x) for x in ("ops.jsonl", "impl.out", "model.out"))
+    ok, err = ctx.model("C07", ops_p, model_p)
+    ctx.oblige("iblt-model-driver-runs", ok, err[-500:])
+    impl, model, bad = ctx.compare(impl_p, model_p)
+    ops = ctx.read_lines(ops_p)
+    res_classes, shapes = Counter(), Counter()
+    n_bad, n_idx, per_sig = 0, 0, Counter()
+
+    def viol(sig, what, i):
+        nonlocal n_bad
+        n_bad += 1
+        per_sig[sig] += 1
+        if per_sig[sig] <= 2:
+            ctx.violation(sig, what, f"iblt-{sig.split(':')[1]}-{i}.jsonl", ops[i] + "\n")
+
+    def lst(l, key):
+        m = re.search(key + r"=\[([^\]]*)\]", l)
+        return None if m is None else [x for x in m.group(1).split(",") if x]
+
+    for i, l in enumerate(impl):
+        if i >= len(ops) or not ops[i] or ops[i].startswith('{"op":"ibltuni"'):
+            continue
+        o = json.loads(ops[i])
+        if "panic:" in l:
+            viol("C07:iblt-panic", f"tree.Iblt panicked: {l[:200]} on {ops[i][:300]}", i)
+            continue
+        if o["op"] == "bidx":
+            n_idx += 1
+            idx = [int(x) for x in re.search(r"\[(.*)\]", l).group(1).split(",") if x]
+            if len(set(idx)) != len(idx) or any(x >= o["n"] for x in idx) or len(idx) != min(6, o["n"]):
+                viol("C07:iblt-bucket-indices-malformed", f"bucketIndices for {o['n']} buckets, key {o['v']} = {idx}: must be min(k,n) distinct indices below n "
+                     "(Insert and Delete of one key would not cancel / a key would never be pure)", i)
+            continue
+        if o["op"] != "iblt":
+            continue
+        cls = "sub=err" if "sub=err" in l else re.search(r"res=(\S+)", l).group(1)
+        wellformed = not o["tamper"] and o["pn"] == o["n"] and not o.get("dup")
+        res_classes[cls + ("" if wellformed else "(forged)")] += 1
+        shapes[o.get("shape", "?")] += 1
+        if not wellformed:
+            continue
+        loc, peer = set(map(str, o["loc"])), set(map(str, o["peer"]))
+        rem, mis = lst(l, "rem"), lst(l, "mis")
+        if cls in ("sub=err", "loop") or cls.startswith("err"):
+            viol("C07:iblt-decode-error-on-wellformed", f"Subtract/Decode of two well-formed IBLTs of {o['n']} buckets errs ({cls}): the receiver of a TransactionSet "
+                 f"returns an error instead of falling back to the previous page; loc={o['loc'][:8]} peer={o['peer'][:8]}", i)
+        elif cls == "ok":
+            if set(mis) != peer - loc or set(rem) != loc - peer or len(mis) != len(set(mis)) or len(rem) != len(set(rem)):
+                viol("C07:iblt-decode-inexact", f"Decode succeeded but missing={mis[:8]} remaining={rem[:8]} are not peer-loc={sorted(peer - loc)[:8]} / loc-peer={sorted(loc - peer)[:8]} "
+                     f"({o['n']} buckets): transactions the peer has are never requested", i)
+        elif cls == "fail":
+            if loc == peer:
+                viol("C07:iblt-equal-sets-not-decoded", f"equal sets ({len(loc)} keys, {o['n']} buckets) do not decode to the empty difference", i)
+            elif not (set(mis) <= peer - loc and set(rem) <= loc - peer):
+                viol("C07:iblt-decode-inexact", f"partial decode result is not inside the difference: missing={mis[:8]} remaining={rem[:8]}", i)
+    ctx.oblige("oracle:iblt-decode-exact,equal-sets-decode,no-error-on-wellformed,bucket-indices-distinct-in-range(impl)", n_bad == 0, f"{n_bad} problems")
+    if not ctx.replay:
+        want = ["ok", "fail", "loop(forged)", "sub=err(forged)", "ok(forged)"]
+        miss = [w for w in want if res_classes[w] == 0]
+        ctx.oblige("generator-reaches-the-iblt-outcomes", not miss, f"not reached: {miss}; reached {dict(res_classes)}")
+    if bad:
+        i = bad[0]
+        detail = f"IBLT leg: first differing line {i}\nop   : {ops[i][:600] if i < len(ops) else None}\nimpl : {impl[i][:600] if i < len(impl) else None}\nmodel: {model[i][:600] if i < len(model) else None}"
+        ctx.oblige("correspondence:iblt-model=impl", False, f"{len(bad)} of {len(impl)} lines differ; " + detail[:900])
+        if n_bad == 0:
+            with open(os.path.join(ctx.replay_dir(), "iblt-correspondence.jsonl"), "w") as f:
+                f.write(ops[i] + "\n")
+            ctx.unproved(["correspondence C07 IBLT (tree.Iblt != NutsModel/C07/Iblt.lean)"], detail + f"\nreplay ops: {ctx.replay_dir()}/iblt-correspondence.jsonl")
+    else:
+        ctx.oblige("correspondence:iblt-model=impl", True, f"{len(impl)} lines equal")
+    ctx.cov["iblt_leg"] = {"decode_ops_by_outcome": dict(res_classes), "shapes": dict(shapes), "bucket_index_ops": n_idx, "lines_equal": len(impl) - len(bad)}
+
+
 def scenario_slices(ops):
     """index of the universe header and (first,last) op index of each scenario"""
     header = None
@@ -77,6 +178,11 @@ def run(ctx):
         "modelled as loss; two nodes (the n-node corollary is not proved; 3-node groups are exercised by the harness in the thorough tier)",
     ]
 
+    if ctx.replay and is_iblt_replay(ctx.replay):
+        run_iblt(ctx)
+        return
+    if not ctx.replay:
+        run_iblt(ctx)
     binary = ctx.go_test_binary(PKG, HARNESS, "c07")
     if binary is None:
         ctx.oblige("harness-builds", False, ctx.harness_error[-1500:])
